@@ -375,11 +375,15 @@ func genC03(r *rand.Rand, tier string, in *input) {
 	n := opBudget(r, tier, 6, 24)
 	pendingLost := false
 	for k := 0; k < n; k++ {
+		if pendingLost && r.IntN(10) < 6 { // resolve the ambiguous proposal by retrying it
+			p.add(p.commitOp(p.leader, p.cur, p.cmds[len(p.cmds)-1]))
+			pendingLost = false
+			continue
+		}
 		x := r.IntN(100)
 		switch {
 		case x < 38 || len(p.cmds) == 0:
 			p.add(p.commitOp(p.leader, p.cur, p.newCmd()))
-			pendingLost = false
 		case x < 60: // exact retry (recent or long evicted)
 			var c cmdInfo
 			if r.IntN(2) == 0 {
@@ -410,7 +414,7 @@ func genC03(r *rand.Rand, tier string, in *input) {
 			op := p.commitOp(p.leader, p.cur, c)
 			op.Recs = recs
 			p.add(op)
-		case x < 82: // every durability response lost: ambiguous pending proposal
+		case x < 79: // every durability response lost: ambiguous pending proposal
 			var c cmdInfo
 			if pendingLost {
 				c = p.cmds[len(p.cmds)-1]
